@@ -414,6 +414,9 @@ func c07(c *core.Check) {
 	// ---- R5 dispatch tables total, validators entered with tokens
 	r5 := c.Rule("R5", "validators[...] is indexed only under the allValidators membership test and is long enough for every property; expanders has an entry for every shorthand NewShortand can return; validators and expanders are only called with a non-empty token list", 6)
 	c07Dispatch(c, r5, eng)
+
+	r6 := c.Rule("R6", "the guard the path interpreter's indexed reads rest on: hasSetsOrMore(sz, …) returns true only for a list of at least sz numbers made of whole groups of sz (decided by path-condition reachability of its `return true` under three refusing scenarios)", 3)
+	groupGuardRule(c, r6)
 }
 
 // compositeLen: number of elements of a composite literal table value (looking through a conversion call).
